@@ -303,6 +303,44 @@ impl World {
         self.nodes[i].sockets.get_mut::<tcp::Socket>(h)
     }
 
+    /// Both applications give up the current connection (abort) and open a new one on the SAME
+    /// socket objects: whatever the old connection left behind - out-of-order data parked in the
+    /// receive buffer, unsent data, negotiated options, timers - must not show in the new one.
+    /// Frames still in flight are discarded (an old duplicate reaching the new connection is the
+    /// classic hazard TIME-WAIT exists for, not something this world wants to judge) and the
+    /// streams are re-keyed, otherwise leaked octets would equal the expected ones.
+    pub fn restart(&mut self) {
+        for i in 0..2 {
+            self.sock(i).abort();
+        }
+        for i in 0..2 {
+            let _ = self.nodes[i].poll(us(self.now_us), None);
+        }
+        self.heap.clear();
+        for i in 0..2 {
+            self.deadline_gen[i] += 1;
+            let a = &mut self.apps[i];
+            a.written.clear();
+            a.received = 0;
+            a.close_called = false;
+            a.finished_seen = false;
+            a.paused_until = 0;
+            a.stream_seed ^= 0x5a5a_a5a5_3c3c_c3c3;
+        }
+        self.outage_left = [0, 0];
+        self.snd_high = [None, None];
+        self.last_data = [None, None];
+        self.last_ack = [None, None];
+        self.idle_same_instant = [0, 0];
+        self.stats.last_progress_us = self.now_us;
+        self.sock(1).listen(80).expect("listen again");
+        let remote = (self.addrs[1].to_smol(), 80u16);
+        let h = self.handles[0];
+        let n = &mut self.nodes[0];
+        let cx = n.iface.context();
+        n.sockets.get_mut::<tcp::Socket>(h).connect(cx, remote, 49152u16).expect("connect again");
+    }
+
     fn push(&mut self, t: i64, k: EvKind) {
         self.evseq += 1;
         self.heap.push(Reverse((t, self.evseq, k)));
